@@ -24,7 +24,7 @@ pub fn info() -> PropInfo {
     PropInfo {
         id: "C11",
         level: "exploration",
-        rule: "Two streams. `cat`: complete enumeration of 64 encodings (versions 2-5 x Dwarf32/64 x address sizes 1/2/4/8 x both byte orders) x every write::AttributeValue variant (40, incl. DebugInfoRef::Symbol) x 4 payload variants (boundary values), the attribute placed on an entry that precedes a referenced entry (UnitRef from the root, DebugInfoRef from a second unit, sibling pointers on), written with Dwarf::write, and for variants that do not need a second unit also with DwarfUnit::write. `rand`: seeded models of 1-4 units (independent encodings, shared byte order), trees of 1-200 entries (flat / chain / bushy shapes), entries created through add or reserve..add_reserved (reserved at an earlier step), reserved-never-added ids, optional deleted sub-tree, DW_TAG_base_type entries anywhere among the root's children, sibling flags, 0-18 attributes per entry drawn from all 40 value kinds with boundary payloads (attribute names chosen so that the reader's interpretation is defined), references forward/backward/self/cross-unit, attribute expressions (30 operation builders incl. typed ULEB references to earlier entries, call4, call_ref, implicit_pointer, entry_value, skip/bra) and location-list expressions (ULEB references in both directions), 0-3 range and 0-3 location lists per unit incl. exact duplicates and shared use, .debug_str/.debug_line_str pools with duplicates, optional line program (1-5 files, 1-2 sequences, string forms inline/strp/line_strp in v5, format possibly differing from the unit's); 25% of the cases get one injected unencodable item (address or offset too large for its field, 256-byte typed constant, forward ULEB reference, reference to a deleted entry, LineProgramRef without program, DebugInfoRef::Symbol, unit version 1/6, symbolic address with the plain writer). Every case is written into Sections<EndianVec>; the Ok/Err outcome is compared with the model's classification; on Ok the sections are read back with read::Dwarf and compared: unit headers, forest (tag, depth, order incl. base types first), attribute names, raw and normalised values, references by identity of the target entry, sibling pointers (next sibling or the parent's null entry), strings through attr_string, lists through attr_ranges/attr_locations (expression bytes from the harness encoder), DW_AT_stmt_list and LineProgramRef through the unit's line program (files and rows), FileIndex through the line header. A case is non-trivial when it has at least 2 entries or one non-identity attribute; distinct cases are counted by a digest of the complete case description.",
+        rule: "Five streams. `cat`: complete enumeration of 64 encodings (versions 2-5 x Dwarf32/64 x address sizes 1/2/4/8 x both byte orders) x every write::AttributeValue variant (40, incl. DebugInfoRef::Symbol) x 4 payload variants (boundary values), the attribute placed on an entry that precedes a referenced entry (UnitRef from the root, DebugInfoRef from a second unit, sibling pointers on), written with Dwarf::write, and for variants that do not need a second unit also with DwarfUnit::write. `rand`: seeded models of 1-4 units (independent encodings, shared byte order), trees of 1-200 entries (flat / chain / bushy shapes), entries created through add or reserve..add_reserved (reserved at an earlier step), reserved-never-added ids, optional deleted sub-tree, DW_TAG_base_type entries anywhere among the root's children, sibling flags, 0-18 attributes per entry drawn from all 40 value kinds with boundary payloads (attribute names chosen so that the reader's interpretation is defined), references forward/backward/self/cross-unit, attribute expressions (30 operation builders incl. typed ULEB references to earlier entries, call4, call_ref, implicit_pointer, entry_value, skip/bra) and location-list expressions (ULEB references in both directions), 0-3 range and 0-3 location lists per unit incl. exact duplicates and shared use, .debug_str/.debug_line_str pools with duplicates, optional line program (1-5 files, 1-2 sequences, string forms inline/strp/line_strp in v5, format possibly differing from the unit's); 25% of the cases get one injected unencodable item (address or offset too large for its field, 256-byte typed constant, forward ULEB reference, reference to a deleted entry, LineProgramRef without program, DebugInfoRef::Symbol, unit version 1/6, symbolic address with the plain writer). Every case is written into Sections<EndianVec>; the Ok/Err outcome is compared with the model's classification; on Ok the sections are read back with read::Dwarf and compared: unit headers, forest (tag, depth, order incl. base types first), attribute names, raw and normalised values, references by identity of the target entry, sibling pointers (next sibling or the parent's null entry), strings through attr_string, lists through attr_ranges/attr_locations (expression bytes from the harness encoder), DW_AT_stmt_list and LineProgramRef through the unit's line program (files and rows), FileIndex through the line header. `shape` (abbreviation sharing): enumeration of 64 encodings x 39 value kinds x run lengths 2-6 (quick: one run length per encoding and kind, all five for ImplicitConst; thorough: all, three seeds each): under one parent a run of 2-6 sibling entries of identical shape (tag, no children, attribute names and forms: identity, the kind under test, an ImplicitConst, sometimes a fourth attribute, in a seeded order) with pairwise different values of the kind under test and pairwise different constants, plus an exact duplicate, an entry with the same constant but another main value and one with the same main value but another constant; mixed in (contiguous or shuffled) 1-2 entries for each of seven near misses that differ from the run in exactly one shape component (tag only, children flag only, sibling attribute only, one form only, attribute order only, one attribute name only, attribute count) and partly repeat the run's values; 2-3 cousins of the run plus near misses under a second parent of the same shape; a referenced entry after all of them; every sixteenth case puts 130 entries of pairwise different shape first so that the run gets two-byte abbreviation codes; one third of the cases has a second unit (half of them of another version) built the same way with other values and references in both directions. These cases are written with Dwarf::write and judged by the same read-back oracle (a merged abbreviation shows as a wrong constant, tag, nesting or attribute list); the number of abbreviation declarations is compared with the model's number of distinct shapes only as a secondary observation. `ordcat` and `order` (write order): a model M that the converter maps back to the same request (see assumptions) is written with Dwarf::write into S0, S0 is verified against M, then S0 is read and re-emitted through write::Dwarf::convert -> read_unit -> ConvertUnit::convert with ConvertUnit::write called for a subset of the units right after their conversion and Dwarf::write at the end, once per subset policy {none, all, first only, last only, even positions, odd positions, seeded random subset} (identical subsets once); the final sections of every policy are verified against the same M with the same oracle (forest, attribute meanings, every reference by identity of the target incl. cross-unit DebugInfoRef in both directions and references from attribute expressions and location-list expressions in .debug_loc and .debug_loclists, strings, lists, line programs), the units being expected in .debug_info in the order incrementally written units first; a write error on this path is a violation, a converter error skips the case. `ordcat` enumerates 64 encodings x 4 variants of a fixed three-unit model (units of different version and format, every unit refers to both others from an attribute, an attribute expression and a location list); `order` uses seeded models of 2-4 units (1 in 12% of the cases) with additional cross-unit references. A case is non-trivial when it has at least 2 entries or one non-identity attribute; distinct cases are counted by a digest of the complete case description.",
         assumptions: &[
             "forms newer than the unit version (data16, line_strp, strp_sup, ref_sup in v2-4) are written by the pinned tree and read back fine; they are classified encodable because the output is neither corrupt nor ambiguous",
             "the chosen DW_FORM is only a secondary observation (secondary.form_differs), the verdict is on the read-back meaning",
@@ -32,10 +32,17 @@ pub fn info() -> PropInfo {
             "FileIndex(None) only has to read back as an unsigned constant",
             "a version 2 DW_FORM_ref_addr / DW_OP_implicit_pointer in a unit with address size 1 or 2 is address sized; when the model cannot prove that every offset fits (upper bound of the section size), Ok with a correct read-back and Err(ValueTooLarge) are both accepted (outcome.unjudged)",
             "range/location lists use shapes that every version can encode (C16 judges list encodability); ranges are kept away from 0 and from the tombstone values so that the resolved iterators report all of them",
-            "DwarfUnit::write is used for single-unit cases without cross-unit references (the API hands out no UnitId); the conversion API's incremental ConvertUnit::write is exercised by C12/C19, not here",
+            "DwarfUnit::write is used for single-unit cases without cross-unit references (the API hands out no UnitId)",
+            "incremental per-unit writing is only reachable through the conversion API, so the write-order streams re-emit sections that Dwarf::write produced; their models are restricted to requests the converter maps back unchanged (no raw expression bytes, no DW_OP_piece size >= 2^60, no DW_OP_deref_size of the address size, constants only under DW_AT_const_value / discr_value / alignment / vendor names, expressions only under names the reader treats as expressions in versions 2-3 and not DW_AT_vtable_elem_location, no sibling flag on the root, no line sequence without rows, no version 5 FileIndex without a line program, no symbolic addresses, no injected unencodable item); whether the converter is faithful outside that subset is C12's question; a ConvertError skips the case (order.convert_err)",
+            "with incremental writes the units are expected in .debug_info in the order they were written (incrementally written units first, in conversion order, then the others)",
+            "abbreviation sharing itself is not demanded: the number of declarations per table is a secondary observation (abbrev.count_as_model / secondary.abbrev_count_differs)",
             "String payloads are NUL-free, Unit::reserve ids used in references are always added later (documented preconditions)",
         ],
-        exhaustive_subspaces: &["64 encodings x 40 attribute value variants x 4 payload variants, attribute placed before a referenced entry (stream `cat`, both profiles)"],
+        exhaustive_subspaces: &[
+            "64 encodings x 40 attribute value variants x 4 payload variants, attribute placed before a referenced entry (stream `cat`, both profiles)",
+            "64 encodings x 4 variants of the three-unit cross-reference model x 7 incremental-write subset policies (stream `ordcat`, both profiles)",
+            "thorough: 64 encodings x 39 value kinds x run lengths 2-6 of same-shape entries with the seven one-component near misses (stream `shape`)",
+        ],
         must_observe: MUST,
         run,
     }
@@ -56,6 +63,26 @@ const MUST: &[&str] = &[
     "ref.to_reserved", "entry.reserved", "entry.phantom_reserved", "entry.deleted", "basetype.moved", "sibling.next", "sibling.parent_null", "sibling.root",
     "strings.dup", "lists.shared", "lists.dup", "line.program", "line.rows", "line.fileindex", "expr.uleb_ref", "expr.info_ref", "expr.in_list", "expr.branch", "expr.entry_value",
     "tree.big", "tree.depth5",
+    // abbreviation sharing (stream `shape`)
+    "shape.run.2", "shape.run.3", "shape.run.4", "shape.run.5", "shape.run.6", "shape.ver.2", "shape.ver.3", "shape.ver.4", "shape.ver.5",
+    "shape.near.tag", "shape.near.children", "shape.near.sibling", "shape.near.form", "shape.near.order", "shape.near.name", "shape.near.count",
+    "shape.cousins", "shape.const.different", "shape.const.equal", "shape.units2", "shape.units2.mixed_versions", "shape.many_shapes", "shape.mixed", "shape.contiguous",
+    "shape.kind.Address", "shape.kind.Block", "shape.kind.Data1", "shape.kind.Data2", "shape.kind.Data4", "shape.kind.Data8", "shape.kind.Data16", "shape.kind.Sdata", "shape.kind.Udata",
+    "shape.kind.ImplicitConst", "shape.kind.Exprloc", "shape.kind.Flag", "shape.kind.FlagPresent", "shape.kind.UnitRef", "shape.kind.DebugInfoRef", "shape.kind.DebugInfoRefSup",
+    "shape.kind.LineProgramRef", "shape.kind.LocationListRef", "shape.kind.DebugMacinfoRef", "shape.kind.DebugMacroRef", "shape.kind.RangeListRef", "shape.kind.DebugTypesRef",
+    "shape.kind.StringRef", "shape.kind.DebugStrRefSup", "shape.kind.LineStringRef", "shape.kind.String", "shape.kind.Encoding", "shape.kind.DecimalSign", "shape.kind.Endianity",
+    "shape.kind.Accessibility", "shape.kind.Visibility", "shape.kind.Virtuality", "shape.kind.Language", "shape.kind.AddressClass", "shape.kind.IdentifierCase",
+    "shape.kind.CallingConvention", "shape.kind.Inline", "shape.kind.Ordering", "shape.kind.FileIndex",
+    "abbrev.model.differ_only_in_implicit_const", "abbrev.model.shared_shape", "abbrev.model.code_2_bytes", "abbrev.count_as_model",
+    // write order (streams `ordcat`, `order`)
+    "order.s0_verified", "order.policy.none", "order.policy.all", "order.policy.first", "order.policy.last", "order.policy.alt_even", "order.policy.alt_odd", "order.policy.random",
+    "order.units.2", "order.units.3", "order.units.4", "order.phys_permuted", "order.all_incremental.cross_refs",
+    "order.all_incremental.attr", "order.all_incremental.expr", "order.all_incremental.loc", "order.all_incremental.loclists",
+    "order.xref.attr.inc_to_later_inc", "order.xref.attr.inc_to_earlier_inc", "order.xref.attr.inc_to_late", "order.xref.attr.late_to_inc", "order.xref.attr.late_to_late",
+    "order.xref.expr.inc_to_later_inc", "order.xref.expr.inc_to_earlier_inc", "order.xref.expr.inc_to_late", "order.xref.expr.late_to_inc", "order.xref.expr.late_to_late",
+    "order.xref.loc.inc_to_later_inc", "order.xref.loc.inc_to_earlier_inc", "order.xref.loc.inc_to_late", "order.xref.loc.late_to_inc", "order.xref.loc.late_to_late",
+    "order.xref.loclists.inc_to_later_inc", "order.xref.loclists.inc_to_earlier_inc", "order.xref.loclists.inc_to_late", "order.xref.loclists.late_to_inc", "order.xref.loclists.late_to_late",
+    "order.selfref.attr.inc", "order.selfref.expr.inc", "order.selfref.loc.inc", "order.selfref.loclists.inc",
 ];
 
 // ================================================================ sections
@@ -1015,7 +1042,116 @@ fn compare_readback_inner(ctx: &mut Ctx, stream: &str, spec: &CaseSpec, secs: &S
             }
         }
     }
+    observe_abbrevs(ctx, spec, &runits, secs);
     ctx.sample(stream, || json!({"spec": desc.chars().take(1200).collect::<String>(), "debug_info": hex(secs.get(gimli::SectionId::DebugInfo)), "debug_abbrev": hex(secs.get(gimli::SectionId::DebugAbbrev))}));
+}
+
+// ================================================================ abbreviation tables (secondary)
+
+fn rd_uleb(d: &[u8], p: &mut usize) -> Option<u64> {
+    let mut v: u64 = 0;
+    let mut sh = 0u32;
+    loop {
+        let b = *d.get(*p)?;
+        *p += 1;
+        if sh < 64 {
+            v |= ((b & 0x7f) as u64) << sh;
+        }
+        sh += 7;
+        if b & 0x80 == 0 {
+            return Some(v);
+        }
+        if sh > 70 {
+            return None;
+        }
+    }
+}
+
+/// Declarations of the abbreviation table at `off`: (tag, children, [(name, form, implicit const)]).
+fn parse_abbrevs(d: &[u8], off: u64) -> Option<Vec<(u64, u8, Vec<(u64, u64, u64)>)>> {
+    let mut p = usize::try_from(off).ok()?;
+    let mut out = vec![];
+    loop {
+        let code = rd_uleb(d, &mut p)?;
+        if code == 0 {
+            return Some(out);
+        }
+        let tag = rd_uleb(d, &mut p)?;
+        let children = *d.get(p)?;
+        p += 1;
+        let mut attrs = vec![];
+        loop {
+            let name = rd_uleb(d, &mut p)?;
+            let form = rd_uleb(d, &mut p)?;
+            // the constant is an SLEB; its raw ULEB digits identify it just as well
+            let ic = if form == 0x21 { rd_uleb(d, &mut p)? } else { 0 };
+            if name == 0 && form == 0 {
+                break;
+            }
+            attrs.push((name, form, ic));
+        }
+        out.push((tag, children, attrs));
+        if out.len() > LIMIT {
+            return None;
+        }
+    }
+}
+
+/// Shape of a model entry as an abbreviation would describe it.
+fn model_shape(us: &UnitSpec, k: usize) -> (u16, bool, Vec<(u16, u16, i64)>) {
+    let e = &us.entries[k];
+    let has_children = !us.children_written(k).is_empty();
+    let mut attrs = vec![];
+    if e.sibling && has_children {
+        attrs.push((dw::DW_AT_sibling.0, if us.enc.fmt64 { 0x14 } else { 0x13 }, 0));
+    }
+    for a in &e.attrs {
+        let form = expected_form(&a.val, us.enc);
+        let ic = match &a.val {
+            ValSpec::ImplicitConst(v) if form == 0x21 => *v,
+            _ => 0,
+        };
+        attrs.push((a.name, form, ic));
+    }
+    if k == 0 && us.line.is_some() && !e.attrs.iter().any(|a| a.name == dw::DW_AT_stmt_list.0) {
+        attrs.push((dw::DW_AT_stmt_list.0, expected_form(&ValSpec::LineProgramRef, us.enc), 0));
+    }
+    (e.tag, has_children, attrs)
+}
+
+/// Coverage of abbreviation sharing; never a verdict (sharing is not part of the property).
+fn observe_abbrevs(ctx: &mut Ctx, spec: &CaseSpec, runits: &[RUnit], secs: &Secs) {
+    let data = secs.get(gimli::SectionId::DebugAbbrev);
+    for (us, ru) in spec.units.iter().zip(runits.iter()) {
+        let order = us.model_order();
+        let mut shapes: Vec<(u16, bool, Vec<(u16, u16, i64)>)> = order.iter().map(|(k, _)| model_shape(us, *k)).collect();
+        let entries = shapes.len();
+        // shapes that differ in nothing but a constant stored in the abbreviation
+        let mut stripped: Vec<(u16, bool, Vec<(u16, u16)>)> = shapes.iter().map(|(t, c, a)| (*t, *c, a.iter().map(|(n, f, _)| (*n, *f)).collect())).collect();
+        shapes.sort();
+        shapes.dedup();
+        stripped.sort();
+        stripped.dedup();
+        if stripped.len() < shapes.len() {
+            ctx.obs("abbrev.model.differ_only_in_implicit_const");
+        }
+        if shapes.len() < entries {
+            ctx.obs("abbrev.model.shared_shape");
+        }
+        if shapes.len() >= 128 {
+            ctx.obs("abbrev.model.code_2_bytes");
+        }
+        match parse_abbrevs(data, ru.abbrev_off) {
+            Some(decls) => {
+                if decls.len() == shapes.len() {
+                    ctx.obs("abbrev.count_as_model");
+                } else {
+                    ctx.obs("secondary.abbrev_count_differs");
+                }
+            }
+            None => ctx.obs("secondary.abbrev_table_unparsed"),
+        }
+    }
 }
 
 // ================================================================ catalogue
